@@ -218,7 +218,16 @@ def squeezeBlanks : Str → Str
   | c :: r => c :: squeezeBlanks r
   | [] => []
 
-def stripWordsOnly (s : Str) : Str := squeezeBlanks (strip s)
+/-- `str.isspace()` / what `str.strip()` removes (CPython 3.12, Unicode 15). -/
+def isPySpace (c : Char) : Bool :=
+  let n := c.toNat
+  (9 ≤ n && n ≤ 13) || (0x1c ≤ n && n ≤ 0x20) || n == 0x85 || n == 0xa0 || n == 0x1680 || (0x2000 ≤ n && n ≤ 0x200a)
+  || n == 0x2028 || n == 0x2029 || n == 0x202f || n == 0x205f || n == 0x3000
+
+/-- `s.strip()` -/
+def pyStrip (s : Str) : Str := ((s.dropWhile isPySpace).reverse.dropWhile isPySpace).reverse
+
+def stripWordsOnly (s : Str) : Str := squeezeBlanks (pyStrip s)
 
 /-- `[x for x in s.split(' ') if x]` -/
 def wordsOf (s : Str) : List Str := (splitChar ' ' s).filter (fun w => !w.isEmpty)
